@@ -35,6 +35,7 @@ func c06Gen(r *rand.Rand, tier string) any {
 		if r.IntN(2) == 0 {
 			m.Funcs = append(m.Funcs, helperSpec{Name: fmt.Sprintf("lib%d_f0", i), Lit: genValue(r, literalKinds)})
 		}
+		m.Fails = r.IntN(12) == 0
 		p.Modules = append(p.Modules, m)
 	}
 	addLoad := func(a, b int) {
@@ -214,6 +215,15 @@ func c06Exec(scAny any, c *simcheck.Ctx) *simcheck.Violation {
 	if cyclic {
 		c.St.Probes["cyclic_load_graph"]++
 	}
+	broken := false
+	for i := range h.p.Modules {
+		if h.p.Modules[i].Fails && reach[h.p.Modules[i].label()] {
+			broken = true
+		}
+	}
+	if broken {
+		c.St.Probes["load_graph_with_failing_module"]++
+	}
 	// two loads of the same tree under different tapes must agree
 	var first []string
 	for round := 0; round < 2; round++ {
@@ -234,7 +244,7 @@ func c06Exec(scAny any, c *simcheck.Ctx) *simcheck.Violation {
 			}
 		}
 		for n := range reach {
-			if !cyclic && loading["module:"+n] != 1 && loading[n] != 1 {
+			if !cyclic && !broken && loading["module:"+n] != 1 && loading[n] != 1 {
 				// label rendering of module labels: accept either form
 				found := false
 				for l := range loading {
@@ -246,6 +256,13 @@ func c06Exec(scAny any, c *simcheck.Ctx) *simcheck.Violation {
 					return simcheck.V("module-not-loaded", "module %s is reachable from a package but was not loaded (loaded: %v)", n, loading)
 				}
 			}
+		}
+		if broken {
+			// a module that fails while others wait for it: the load must end with an error
+			if res.LoadErr == nil {
+				return simcheck.V("failing-module-loaded", "a reachable module fails while loading but the project loaded successfully")
+			}
+			continue
 		}
 		if cyclic {
 			if res.LoadErr == nil {
